@@ -22,7 +22,7 @@ from mc.ref import c19_ref as ref
 PROPERTY = "C19"
 RULE = (
     "pipeline: for every layout (chains x warm-up structure x posterior structure x chunking x kernel set) "
-    "within the tier's cell bound, every assignment of error codes (kernel A: {0,1,2}, kernel B: {0,7}) to "
+    "within the tier's cell bound, every assignment of error codes (kernel A: {0,1,2}, kernel B: {0,7}, kernel N: {0,-3,2}; also two kernels of the same class A) to "
     "every (chain, transition) cell; engine: one chain per single-chain pattern (3^T chains) plus small chain "
     "counts with thinning / no warm-up / two kernels. Distinct outcome = (level, where errors occur, in which "
     "chains, stage verdict)."
@@ -39,8 +39,20 @@ BOOK_A = {0: "no errors", 1: "first documented error", 2: "second documented err
 # kernel B documents code 1 too (with its own message) but never returns it: a summary that
 # attributes kernel A's code 1 to kernel B then shows up as a wrong entry instead of a KeyError
 BOOK_B = {0: "no errors", 1: "kernel B's own first error", 7: "error number seven"}
-ALPHA = {"A": [0, 1, 2], "B": [0, 7]}
-KID = {"A": "kernel_00", "B": "kernel_01"}
+# kernel N documents a NEGATIVE code (legal: only 0 is reserved for "no error")
+BOOK_N = {0: "no errors", -3: "negative documented error", 2: "positive error of kernel N"}
+BOOKS = {"A": BOOK_A, "B": BOOK_B, "N": BOOK_N}
+ALPHA = {"A": [0, 1, 2], "B": [0, 7], "N": [0, -3, 2]}
+
+
+def kernel_id(i):
+    """identifier of the i-th kernel (what EngineBuilder assigns)"""
+    return f"kernel_{i:02d}"
+
+
+def _alpha(layout):
+    return layout.get("alpha") or [ALPHA[k] for k in layout["kernels"]]
+
 
 WARM = {0: [[]], 1: [[["BURNIN", 1]]], 2: [[["BURNIN", 2]], [["FAST", 1], ["SLOW", 1]]]}
 POST = {0: [[]], 1: [[["POSTERIOR", 1]]], 2: [[["POSTERIOR", 2]], [["POSTERIOR", 1], ["POSTERIOR", 1]]]}
@@ -69,7 +81,23 @@ def _layouts(tier):
         dict(chains=2, epochs=[["POSTERIOR", 2]], chunk="epoch", kernels=["A", "B"]),
         dict(chains=2, epochs=[["BURNIN", 2]], chunk="unit", kernels=["A", "B"]),
     ]
+    # two kernels of the SAME class with overlapping codes and messages
+    two += [
+        dict(chains=2, epochs=[["BURNIN", 1], ["POSTERIOR", 1]], chunk="epoch", kernels=["A", "A"], alpha=[[0, 1, 2], [0, 1]]),
+        dict(chains=1, epochs=[["BURNIN", 1], ["POSTERIOR", 2]], chunk="epoch", kernels=["A", "A"], alpha=[[0, 1, 2], [0, 1, 2]]),
+        dict(chains=3, epochs=[["POSTERIOR", 1]], chunk="epoch", kernels=["A", "A"], alpha=[[0, 1], [0, 1]]),
+    ]
+    # a kernel with a negative documented code, alone and next to kernel A
+    two += [
+        dict(chains=2, epochs=[["BURNIN", 1], ["POSTERIOR", 1]], chunk="epoch", kernels=["N"]),
+        dict(chains=1, epochs=[["BURNIN", 2], ["POSTERIOR", 2]], chunk="unit", kernels=["N"]),
+        dict(chains=2, epochs=[["POSTERIOR", 2]], chunk="unit", kernels=["N"]),
+        dict(chains=1, epochs=[["BURNIN", 1], ["POSTERIOR", 1]], chunk="epoch", kernels=["A", "N"]),
+        dict(chains=2, epochs=[["POSTERIOR", 1]], chunk="epoch", kernels=["N", "B"]),
+    ]
     if tier != "quick":
+        two.append(dict(chains=2, epochs=[["BURNIN", 1], ["POSTERIOR", 1]], chunk="epoch", kernels=["A", "N"]))
+        two.append(dict(chains=2, epochs=[["BURNIN", 1], ["POSTERIOR", 2]], chunk="epoch", kernels=["N"]))
         two.append(dict(chains=3, epochs=[["POSTERIOR", 1]], chunk="epoch", kernels=["A", "B"]))
         two.append(dict(chains=1, epochs=[["BURNIN", 2], ["POSTERIOR", 2]], chunk="unit", kernels=["A", "B"]))
         out.append(dict(chains=3, epochs=[["BURNIN", 1], ["POSTERIOR", 2]], chunk="epoch", kernels=["A"]))
@@ -85,26 +113,32 @@ def _T(layout):
 
 def _npatterns(layout):
     n = 1
-    for k in layout["kernels"]:
-        n *= len(ALPHA[k]) ** (layout["chains"] * _T(layout))
+    for al in _alpha(layout):
+        n *= len(al) ** (layout["chains"] * _T(layout))
     return n
 
 
 ENGINE_QUICK = [
     # sweep: one chain per pattern over all transitions
-    dict(name="sweep-burnin2-post4", sweep=True, kernels=1, schedule=[["BURNIN", 2, 1], ["POSTERIOR", 4, 1]]),
-    dict(name="sweep-fast1-slow1-post2x2-two-kernels", sweep=True, kernels=2, schedule=[["FAST", 1, 1], ["SLOW", 1, 1], ["POSTERIOR", 2, 1], ["POSTERIOR", 2, 1]]),
-    dict(name="sweep-no-warmup-post4", sweep=True, kernels=1, schedule=[["POSTERIOR", 4, 1]]),
+    dict(name="sweep-burnin2-post4", sweep=True, books=["A"], schedule=[["BURNIN", 2, 1], ["POSTERIOR", 4, 1]]),
+    dict(name="sweep-fast1-slow1-post2x2-two-kernels", sweep=True, books=["A", "B"], schedule=[["FAST", 1, 1], ["SLOW", 1, 1], ["POSTERIOR", 2, 1], ["POSTERIOR", 2, 1]]),
+    dict(name="sweep-no-warmup-post4", sweep=True, books=["A"], schedule=[["POSTERIOR", 4, 1]]),
     # small chain counts, thinning
-    dict(name="c1-burnin4-post8-thin2", sweep=False, chains=1, kernels=1, schedule=[["BURNIN", 4, 1], ["POSTERIOR", 8, 2]]),
-    dict(name="c2-burnin4thin2-post8-thin2-two-kernels", sweep=False, chains=2, kernels=2, schedule=[["BURNIN", 4, 2], ["POSTERIOR", 8, 2]]),
-    dict(name="c3-post8-thin4", sweep=False, chains=3, kernels=1, schedule=[["POSTERIOR", 8, 4]]),
-    dict(name="c3-fast2-slow2-burnin2-post4", sweep=False, chains=3, kernels=2, schedule=[["FAST", 2, 1], ["SLOW", 2, 1], ["BURNIN", 2, 1], ["POSTERIOR", 4, 1]]),
+    dict(name="c1-burnin4-post8-thin2", sweep=False, chains=1, books=["A"], schedule=[["BURNIN", 4, 1], ["POSTERIOR", 8, 2]]),
+    dict(name="c2-burnin4thin2-post8-thin2-two-kernels", sweep=False, chains=2, books=["A", "B"], schedule=[["BURNIN", 4, 2], ["POSTERIOR", 8, 2]]),
+    dict(name="c3-post8-thin4", sweep=False, chains=3, books=["A"], schedule=[["POSTERIOR", 8, 4]]),
+    dict(name="c3-fast2-slow2-burnin2-post4", sweep=False, chains=3, books=["A", "B"], schedule=[["FAST", 2, 1], ["SLOW", 2, 1], ["BURNIN", 2, 1], ["POSTERIOR", 4, 1]]),
+]
+ENGINE_QUICK += [
+    dict(name="c2-same-class-burnin2-post4", sweep=False, chains=2, books=["A", "A"], schedule=[["BURNIN", 2, 1], ["POSTERIOR", 4, 1]]),
+    dict(name="c3-same-class-post4", sweep=False, chains=3, books=["A", "A"], schedule=[["POSTERIOR", 4, 1]]),
+    dict(name="sweep-negative-burnin1-post4", sweep=True, books=["N"], schedule=[["BURNIN", 1, 1], ["POSTERIOR", 4, 1]]),
+    dict(name="c2-negative-and-A-burnin2-post4", sweep=False, chains=2, books=["N", "A"], schedule=[["BURNIN", 2, 1], ["POSTERIOR", 4, 1]]),
 ]
 ENGINE_THOROUGH = ENGINE_QUICK + [
-    dict(name="sweep-fast2-burnin2-post4", sweep=True, kernels=1, schedule=[["FAST", 2, 1], ["BURNIN", 2, 1], ["POSTERIOR", 4, 1]]),
-    dict(name="sweep-burnin2-post4-two-kernels", sweep=True, kernels=2, schedule=[["BURNIN", 2, 1], ["POSTERIOR", 4, 1]]),
-    dict(name="c4-burnin6thin3-post12-thin3", sweep=False, chains=4, kernels=2, schedule=[["BURNIN", 6, 3], ["POSTERIOR", 12, 3]]),
+    dict(name="sweep-fast2-burnin2-post4", sweep=True, books=["A"], schedule=[["FAST", 2, 1], ["BURNIN", 2, 1], ["POSTERIOR", 4, 1]]),
+    dict(name="sweep-burnin2-post4-two-kernels", sweep=True, books=["A", "B"], schedule=[["BURNIN", 2, 1], ["POSTERIOR", 4, 1]]),
+    dict(name="c4-burnin6thin3-post12-thin3", sweep=False, chains=4, books=["A", "B"], schedule=[["BURNIN", 6, 3], ["POSTERIOR", 12, 3]]),
 ]
 
 
@@ -154,6 +188,13 @@ class BookA:
 
 class BookB:
     error_book = BOOK_B
+
+
+class BookN:
+    error_book = BOOK_N
+
+
+BOOK_CLASSES = {"A": BookA, "B": BookB, "N": BookN}
 
 
 _LIB = {}
@@ -213,12 +254,12 @@ def lib():
 
     # concrete classes live at module level (pickle stores kernel classes by reference)
     g = globals()
-    for name, book in (("ScriptedA", BOOK_A), ("ScriptedB", BOOK_B)):
+    for name, book in (("ScriptedA", BOOK_A), ("ScriptedB", BOOK_B), ("ScriptedN", BOOK_N)):
         cls = type(name, (_Scripted,), {"error_book": book})
         cls.__module__ = __name__
         cls.__qualname__ = name
         g[name] = cls
-    _LIB.update(jax=jax, jnp=jnp, ScriptedA=g["ScriptedA"], ScriptedB=g["ScriptedB"], DefaultTransitionInfo=DefaultTransitionInfo)
+    _LIB.update(jax=jax, jnp=jnp, ScriptedA=g["ScriptedA"], ScriptedB=g["ScriptedB"], ScriptedN=g["ScriptedN"], DefaultTransitionInfo=DefaultTransitionInfo)
     return _LIB
 
 
@@ -274,7 +315,7 @@ def build_results(layout, codes):
             tis.append(chunk)
             pos.append({"x": np.tile(np.arange(a + 1, b + 1, dtype=np.float32), (chains, 1))})
         t += d
-    classes = {KID["A"]: BookA, KID["B"]: BookB}
+    classes = {kernel_id(i): BOOK_CLASSES[k] for i, k in enumerate(layout["kernels"])}
     return SamplingResults(
         positions=pos,
         transition_infos=tis,
@@ -283,7 +324,7 @@ def build_results(layout, codes):
         kernel_states=Option(None),
         full_model_states=Option(None),
         kernel_classes=Option({kid: classes[kid] for kid in codes}),
-        kernels_by_pos_key=Option({"x": KID["A"]}),
+        kernels_by_pos_key=Option({"x": kernel_id(0)}),
     )
 
 
@@ -452,11 +493,11 @@ def run_pipeline_unit(res, unit):
         chains, T = layout["chains"], _T(layout)
         phases = phases_of(layout["epochs"])
         ks = layout["kernels"]
-        books = {KID[k]: (BOOK_A if k == "A" else BOOK_B) for k in ks}
+        books = {kernel_id(i): BOOKS[k] for i, k in enumerate(ks)}
         cells = chains * T
         alph = []
-        for k in ks:
-            alph += [ALPHA[k]] * cells
+        for al in _alpha(layout):
+            alph += [al] * cells
         n = _npatterns(layout)
         lo, hi = unit["lo"], unit["hi"] if unit["hi"] is not None else n
         sample_info = {"num_chains": chains, "sample_size_per_chain": phases.count("p"), "warmup_size_per_chain": phases.count("w")}
@@ -465,7 +506,7 @@ def run_pipeline_unit(res, unit):
         for pat in it:
             codes = {}
             for i, k in enumerate(ks):
-                codes[KID[k]] = np.array(pat[i * cells : (i + 1) * cells], dtype=np.int32).reshape(chains, T)
+                codes[kernel_id(i)] = np.array(pat[i * cells : (i + 1) * cells], dtype=np.int32).reshape(chains, T)
             results = build_results(layout, codes)
             case = {"layout": layout, "pattern": [int(v) for v in pat]}
             check_pipeline(res, results, codes, phases, books, "pipeline", case, sample_info)
@@ -483,35 +524,30 @@ def run_pipeline_unit(res, unit):
 
 
 def _tables(spec):
-    """error-code tables [chains, T] per kernel, from the spec alone."""
+    """error-code tables [chains, T] per kernel id, from the spec alone."""
     import numpy as np
 
     T = sum(d for _, d, _ in spec["schedule"])
-    nk = spec["kernels"]
     out = {}
     if spec["sweep"]:
-        pats = list(itertools.product(ALPHA["A"], repeat=T))
-        a = np.array(pats, dtype=np.int32)
-        out[KID["A"]] = a
-        if nk == 2:
-            # kernel B: all 2^T patterns, repeated cyclically and in reversed order, so
-            # that every B pattern meets many A patterns
-            pb = np.array(list(itertools.product(ALPHA["B"], repeat=T)), dtype=np.int32)
+        first = ALPHA[spec["books"][0]]
+        a = np.array(list(itertools.product(first, repeat=T)), dtype=np.int32)
+        out[kernel_id(0)] = a
+        for i, bk in enumerate(spec["books"][1:], start=1):
+            # later kernels: all patterns of their alphabet, repeated cyclically and in
+            # reversed order, so that every pattern meets many patterns of kernel 0
+            pb = np.array(list(itertools.product(ALPHA[bk], repeat=T)), dtype=np.int32)
             idx = (np.arange(len(a))[::-1] * 5) % len(pb)
-            out[KID["B"]] = pb[idx]
+            out[kernel_id(i)] = pb[idx]
     else:
         chains = spec["chains"]
-        a = np.zeros((chains, T), np.int32)
-        b = np.zeros((chains, T), np.int32)
-        for c in range(chains):
-            for t in range(T):
-                a[c, t] = [0, 1, 2, 0, 0, 2][(t + 2 * c) % 6] if c < 2 else (1 if t % 2 == 0 else 0)
-                b[c, t] = 7 if (t + c) % 3 == 0 else 0
-        if chains == 1:
-            a[0, :] = [[1, 0, 2][t % 3] for t in range(T)]
-        out[KID["A"]] = a
-        if nk == 2:
-            out[KID["B"]] = b
+        for i, bk in enumerate(spec["books"]):
+            al = ALPHA[bk]
+            tab = np.zeros((chains, T), np.int32)
+            for c in range(chains):
+                for t in range(T):
+                    tab[c, t] = al[(t + c * (i + 1) + i) % len(al)]
+            out[kernel_id(i)] = tab
     return out
 
 
@@ -536,14 +572,14 @@ def run_engine_unit(res, unit):
     phases = []
     for t, d, th in sched:
         phases += ["p" if t == "POSTERIOR" else "w"] * d
-    nk = spec["kernels"]
+    nk = len(spec["books"])
 
-    state = {"x": jnp.asarray(np.arange(chains, dtype=np.float32) * 100.0), "tabA": jnp.asarray(tables[KID["A"]])}
-    kernels = [L["ScriptedA"](["x"], "tabA", 1.0)]
+    state = {"x": jnp.asarray(np.arange(chains, dtype=np.float32) * 100.0), "tab0": jnp.asarray(tables[kernel_id(0)])}
+    kernels = [L["Scripted" + spec["books"][0]](["x"], "tab0", 1.0)]
     if nk == 2:
         state["y"] = jnp.asarray(np.stack([np.arange(chains, dtype=np.float32), -np.arange(chains, dtype=np.float32)], axis=1))
-        state["tabB"] = jnp.asarray(tables[KID["B"]])
-        kernels.append(L["ScriptedB"](["y"], "tabB", 0.5))
+        state["tab1"] = jnp.asarray(tables[kernel_id(1)])
+        kernels.append(L["Scripted" + spec["books"][1]](["y"], "tab1", 0.5))
     builder = gs.EngineBuilder(seed=unit["seed"], num_chains=chains)
     builder.show_progress = False
     builder.set_epochs([EpochConfig(_etype("INITIAL"), 1, 1, None)] + [EpochConfig(_etype(t), d, th, None) for t, d, th in sched])
@@ -559,9 +595,7 @@ def run_engine_unit(res, unit):
     res.transitions += chains * T * nk
 
     case = {"engine": spec, "seed": unit["seed"]}
-    books = {KID["A"]: BOOK_A}
-    if nk == 2:
-        books[KID["B"]] = BOOK_B
+    books = {kernel_id(i): BOOKS[bk] for i, bk in enumerate(spec["books"])}
 
     # what the kernels returned is what is stored (prerequisite of everything else)
     stored = results.transition_infos.combine_all().unwrap()
